@@ -15,12 +15,11 @@
 (* may send any id, any number of times, in any order, at any time, close the connection or send garbage. *)
 (* Deviation of the code from the ideal, kept as a named switch: SerialDial (finding F21: ReConnect dials  *)
 (* under the connection lock and every waiting caller dials again).                                        *)
-EXTENDS Integers, Sequences, FiniteSets, TLC
+EXTENDS Integers, Sequences, FiniteSets, TLC, IdGen     \* IdGen: MaxId (the model's maxInt32), Ids, CasStep, AddStep
 CONSTANTS Callers,     \* caller slots
-          MaxId,       \* the model's maxInt32: the id space is MinId..MaxId
           StartIds,    \* initial values of the process-wide counter
           NPkts,       \* number of packets the peer may send
-          Foreign,     \* ids the peer may use although it never received them
+          Foreign,     \* what the peer may send besides ids it received: ids it never saw, 0 (push), GARB (a packet that does not decode)
           QMax,        \* ObjQueueMax
           Timed,       \* TRUE: discrete clock with maximal progress
           TO,          \* [Callers -> Nat]: effective deadline of a call, ticks after its start
@@ -32,25 +31,18 @@ CONSTANTS Callers,     \* caller slots
           MayClose,    \* the peer may close the connection (or send an unparsable frame, which makes the client close it)
           Transient    \* model-checking economy: caller labels whose next step runs before anybody else moves ({} = every interleaving);
                        \* used only for labels whose step commutes with every step of the other processes in that configuration
-MinId == -MaxId - 1
-Ids == MinId..MaxId
 GARB == MaxId + 1       \* pseudo id: a well-framed packet that does not decode
 ASSUME Cardinality(Callers) <= MaxId - 1
 
-\* ---- the id generator (genRequestID): CAS(max -> 1), then Add(1) until the result is not 0; int32 overflow wraps
-CasStep(m) == IF m = MaxId THEN 1 ELSE m
-AddStep(m) == IF m = MaxId THEN MinId ELSE m + 1
-
 VARIABLES msgID,      \* the counter
-          pc, cid, out, st,   \* per caller: program counter, request id, outcome [k, p], start time
+          pc, cid, out, st, eff,   \* per caller: program counter, request id, outcome [k, p], start time, effective deadline (ticks after the start)
           resp,       \* pending-reply table: partial function id -> caller (whose reply channel is stored)
           queueLen, mgrInvoke, tInvoke,   \* ServantProxy.queueLen, endpointManager.invokeNum, connection.invokeNum
           conn, dialer, dmode, dialT,     \* connection "closed"|"open"; holder of the connection lock while dialing; what it meets; since when
           sendQ, wire, seen,              \* requests <<id, caller>> queued / written; peer's memory id -> caller named in the request
           pkt, rst, rch, lookT,           \* per peer packet: [id, tag]; receiver state; reply channel (caller) it holds; time of lookup
           now
-cvars == <<pc, cid, out, st>>
-vars == <<msgID, pc, cid, out, st, resp, queueLen, mgrInvoke, tInvoke, conn, dialer, dmode, dialT, sendQ, wire, seen, pkt, rst, rch, lookT, now>>
+vars == <<msgID, pc, cid, out, st, eff, resp, queueLen, mgrInvoke, tInvoke, conn, dialer, dmode, dialT, sendQ, wire, seen, pkt, rst, rch, lookT, now>>
 
 EmptyF == [x \in {} |-> 0]
 Put(f, k, v) == [x \in DOMAIN f \cup {k} |-> IF x = k THEN v ELSE f[x]]
@@ -59,7 +51,7 @@ NoOut == [k |-> "none", p |-> 0]
 
 Init == /\ msgID \in StartIds
         /\ pc = [c \in Callers |-> "idle"] /\ cid = [c \in Callers |-> 0] /\ out = [c \in Callers |-> NoOut]
-        /\ st = [c \in Callers |-> 0]
+        /\ st = [c \in Callers |-> 0] /\ eff = TO
         /\ resp = EmptyF /\ queueLen = 0 /\ mgrInvoke = 0 /\ tInvoke = 0
         /\ conn = "closed" /\ dialer = 0 /\ dmode = "accept" /\ dialT = 0
         /\ sendQ = {} /\ wire = {} /\ seen = EmptyF
@@ -71,29 +63,31 @@ Finish(c, k, p) == out' = [out EXCEPT ![c] = [k |-> k, p |-> p]]
 
 \* ---------------------------------------------------------------- caller c (TarsInvoke / doInvoke)
 Start(c) == /\ pc[c] = "idle" /\ Goto(c, "cas") /\ st' = [st EXCEPT ![c] = now]
-            /\ UNCHANGED <<msgID, cid, out, resp, queueLen, mgrInvoke, tInvoke, conn, dialer, dmode, dialT, sendQ, wire, seen, pkt, rst, rch, lookT, now>>
+            /\ UNCHANGED <<eff, msgID, cid, out, resp, queueLen, mgrInvoke, tInvoke, conn, dialer, dmode, dialT, sendQ, wire, seen, pkt, rst, rch, lookT, now>>
 GenCAS(c) == /\ pc[c] = "cas" /\ msgID' = CasStep(msgID) /\ Goto(c, "add")
-             /\ UNCHANGED <<cid, out, st, resp, queueLen, mgrInvoke, tInvoke, conn, dialer, dmode, dialT, sendQ, wire, seen, pkt, rst, rch, lookT, now>>
+             /\ UNCHANGED <<eff, cid, out, st, resp, queueLen, mgrInvoke, tInvoke, conn, dialer, dmode, dialT, sendQ, wire, seen, pkt, rst, rch, lookT, now>>
 GenAdd(c) == /\ pc[c] = "add" /\ msgID' = AddStep(msgID)
              /\ IF msgID' # 0 THEN cid' = [cid EXCEPT ![c] = msgID'] /\ Goto(c, "pre") ELSE UNCHANGED <<cid, pc>>
-             /\ UNCHANGED <<out, st, resp, queueLen, mgrInvoke, tInvoke, conn, dialer, dmode, dialT, sendQ, wire, seen, pkt, rst, rch, lookT, now>>
+             /\ UNCHANGED <<eff, out, st, resp, queueLen, mgrInvoke, tInvoke, conn, dialer, dmode, dialT, sendQ, wire, seen, pkt, rst, rch, lookT, now>>
 Pre(c) == /\ pc[c] = "pre" /\ mgrInvoke' = mgrInvoke + 1 /\ Goto(c, "sel")          \* preInvoke
-          /\ UNCHANGED <<msgID, cid, out, st, resp, queueLen, tInvoke, conn, dialer, dmode, dialT, sendQ, wire, seen, pkt, rst, rch, lookT, now>>
+          /\ UNCHANGED <<eff, msgID, cid, out, st, resp, queueLen, tInvoke, conn, dialer, dmode, dialT, sendQ, wire, seen, pkt, rst, rch, lookT, now>>
 \* adapter selected; "invoke queue is full" leaves before anything is registered
-Sel(c) == /\ pc[c] = "sel"
-          /\ IF queueLen > QMax THEN Finish(c, "full", 0) /\ Goto(c, "post") ELSE Goto(c, "reg1") /\ UNCHANGED out
-          /\ UNCHANGED <<msgID, cid, st, resp, queueLen, mgrInvoke, tInvoke, conn, dialer, dmode, dialT, sendQ, wire, seen, pkt, rst, rch, lookT, now>>
+SelWith(c, full) ==
+          /\ pc[c] = "sel"
+          /\ IF full THEN Finish(c, "full", 0) /\ Goto(c, "post") ELSE Goto(c, "reg1") /\ UNCHANGED out
+          /\ UNCHANGED <<eff, msgID, cid, st, resp, queueLen, mgrInvoke, tInvoke, conn, dialer, dmode, dialT, sendQ, wire, seen, pkt, rst, rch, lookT, now>>
+Sel(c) == SelWith(c, queueLen > QMax)
 Reg1(c) == /\ pc[c] = "reg1" /\ queueLen' = queueLen + 1 /\ Goto(c, "reg2")
-           /\ UNCHANGED <<msgID, cid, out, st, resp, mgrInvoke, tInvoke, conn, dialer, dmode, dialT, sendQ, wire, seen, pkt, rst, rch, lookT, now>>
+           /\ UNCHANGED <<eff, msgID, cid, out, st, resp, mgrInvoke, tInvoke, conn, dialer, dmode, dialT, sendQ, wire, seen, pkt, rst, rch, lookT, now>>
 Reg2(c) == /\ pc[c] = "reg2" /\ resp' = Put(resp, cid[c], c) /\ Goto(c, "send")       \* resp.Store(id, fresh channel)
-           /\ UNCHANGED <<msgID, cid, out, st, queueLen, mgrInvoke, tInvoke, conn, dialer, dmode, dialT, sendQ, wire, seen, pkt, rst, rch, lookT, now>>
+           /\ UNCHANGED <<eff, msgID, cid, out, st, queueLen, mgrInvoke, tInvoke, conn, dialer, dmode, dialT, sendQ, wire, seen, pkt, rst, rch, lookT, now>>
 \* adp.Send -> TarsClient.Send: ReConnect under the connection lock, then enqueue (the queue is assumed not to be full)
 SendOpen(c) == /\ pc[c] = "send" /\ conn = "open" /\ dialer = 0
                /\ sendQ' = sendQ \cup {<<cid[c], c>>} /\ Goto(c, "wait")
-               /\ UNCHANGED <<msgID, cid, out, st, resp, queueLen, mgrInvoke, tInvoke, conn, dialer, dmode, dialT, wire, seen, pkt, rst, rch, lookT, now>>
+               /\ UNCHANGED <<eff, msgID, cid, out, st, resp, queueLen, mgrInvoke, tInvoke, conn, dialer, dmode, dialT, wire, seen, pkt, rst, rch, lookT, now>>
 DialStart(c) == /\ pc[c] = "send" /\ conn = "closed" /\ dialer = 0
                 /\ dialer' = c /\ dialT' = now /\ dmode' \in DialModes /\ Goto(c, "dial")
-                /\ UNCHANGED <<msgID, cid, out, st, resp, queueLen, mgrInvoke, tInvoke, conn, sendQ, wire, seen, pkt, rst, rch, lookT, now>>
+                /\ UNCHANGED <<eff, msgID, cid, out, st, resp, queueLen, mgrInvoke, tInvoke, conn, sendQ, wire, seen, pkt, rst, rch, lookT, now>>
 DialDue == dmode # "blackhole" \/ ~Timed \/ now >= dialT + DialBound
 DialDone(c) ==
   /\ pc[c] = "dial" /\ dialer = c /\ DialDue /\ dialer' = 0
@@ -103,72 +97,78 @@ DialDone(c) ==
           /\ LET F == IF SerialDial THEN {c} ELSE {c} \cup {d \in Callers : pc[d] = "send"}
              IN /\ pc' = [d \in Callers |-> IF d \in F THEN "unreg1" ELSE pc[d]]
                 /\ out' = [d \in Callers |-> IF d \in F THEN [k |-> "senderr", p |-> 0] ELSE out[d]]
-  /\ UNCHANGED <<msgID, cid, st, resp, queueLen, mgrInvoke, tInvoke, dmode, dialT, wire, seen, pkt, rst, rch, lookT, now>>
+  /\ UNCHANGED <<eff, msgID, cid, st, resp, queueLen, mgrInvoke, tInvoke, dmode, dialT, wire, seen, pkt, rst, rch, lookT, now>>
 \* the select of doInvoke: ctx.Done (a reply that is ready at the same time may win instead: Deliver)
-Due(c) == ~Timed \/ now >= st[c] + TO[c]
+Due(c) == ~Timed \/ now >= st[c] + eff[c]
 Timeout(c) == /\ pc[c] = "wait" /\ Due(c) /\ Finish(c, "timeout", 0) /\ Goto(c, "unreg1")
-              /\ UNCHANGED <<msgID, cid, st, resp, queueLen, mgrInvoke, tInvoke, conn, dialer, dmode, dialT, sendQ, wire, seen, pkt, rst, rch, lookT, now>>
+              /\ UNCHANGED <<eff, msgID, cid, st, resp, queueLen, mgrInvoke, tInvoke, conn, dialer, dmode, dialT, sendQ, wire, seen, pkt, rst, rch, lookT, now>>
 \* deferred cleanup on every exit path, then postInvoke
 Unreg1(c) == /\ pc[c] = "unreg1" /\ queueLen' = queueLen - 1 /\ Goto(c, "unreg2")
-             /\ UNCHANGED <<msgID, cid, out, st, resp, mgrInvoke, tInvoke, conn, dialer, dmode, dialT, sendQ, wire, seen, pkt, rst, rch, lookT, now>>
+             /\ UNCHANGED <<eff, msgID, cid, out, st, resp, mgrInvoke, tInvoke, conn, dialer, dmode, dialT, sendQ, wire, seen, pkt, rst, rch, lookT, now>>
 Unreg2(c) == /\ pc[c] = "unreg2" /\ resp' = Drop(resp, cid[c]) /\ Goto(c, "post")
-             /\ UNCHANGED <<msgID, cid, out, st, queueLen, mgrInvoke, tInvoke, conn, dialer, dmode, dialT, sendQ, wire, seen, pkt, rst, rch, lookT, now>>
+             /\ UNCHANGED <<eff, msgID, cid, out, st, queueLen, mgrInvoke, tInvoke, conn, dialer, dmode, dialT, sendQ, wire, seen, pkt, rst, rch, lookT, now>>
 Post(c) == /\ pc[c] = "post" /\ mgrInvoke' = mgrInvoke - 1 /\ Goto(c, "done")
-           /\ UNCHANGED <<msgID, cid, out, st, resp, queueLen, tInvoke, conn, dialer, dmode, dialT, sendQ, wire, seen, pkt, rst, rch, lookT, now>>
+           /\ UNCHANGED <<eff, msgID, cid, out, st, resp, queueLen, tInvoke, conn, dialer, dmode, dialT, sendQ, wire, seen, pkt, rst, rch, lookT, now>>
 
 \* ---------------------------------------------------------------- transport: sender goroutine, network, peer
 SenderWrite(m) == /\ m \in sendQ /\ conn = "open"
                   /\ sendQ' = sendQ \ {m} /\ wire' = wire \cup {m} /\ tInvoke' = tInvoke + 1
-                  /\ UNCHANGED <<msgID, pc, cid, out, st, resp, queueLen, mgrInvoke, conn, dialer, dmode, dialT, seen, pkt, rst, rch, lookT, now>>
+                  /\ UNCHANGED <<eff, msgID, pc, cid, out, st, resp, queueLen, mgrInvoke, conn, dialer, dmode, dialT, seen, pkt, rst, rch, lookT, now>>
 PeerGet(m) == /\ m \in wire /\ conn = "open"
               /\ wire' = wire \ {m} /\ seen' = Put(seen, m[1], m[2])
-              /\ UNCHANGED <<msgID, pc, cid, out, st, resp, queueLen, mgrInvoke, tInvoke, conn, dialer, dmode, dialT, sendQ, pkt, rst, rch, lookT, now>>
-PeerIds == DOMAIN seen \cup {0} \cup Foreign \cup {GARB}
+              /\ UNCHANGED <<eff, msgID, pc, cid, out, st, resp, queueLen, mgrInvoke, tInvoke, conn, dialer, dmode, dialT, sendQ, pkt, rst, rch, lookT, now>>
+PeerIds == DOMAIN seen \cup Foreign
 PeerSend(i) == /\ Len(pkt) < NPkts /\ conn = "open" /\ i \in PeerIds
                /\ pkt' = Append(pkt, [id |-> i, tag |-> IF i \in DOMAIN seen THEN seen[i] ELSE 0])
                /\ rst' = Append(rst, "net") /\ rch' = Append(rch, 0) /\ lookT' = Append(lookT, 0)
-               /\ UNCHANGED <<msgID, pc, cid, out, st, resp, queueLen, mgrInvoke, tInvoke, conn, dialer, dmode, dialT, sendQ, wire, seen, now>>
+               /\ UNCHANGED <<eff, msgID, pc, cid, out, st, resp, queueLen, mgrInvoke, tInvoke, conn, dialer, dmode, dialT, sendQ, wire, seen, now>>
 \* the connection goes away (closed by the peer, or by the client after an unparsable frame): what was in flight is lost
 ConnLost == /\ MayClose /\ conn = "open" /\ conn' = "closed" /\ wire' = {}
             /\ rst' = [q \in DOMAIN rst |-> IF rst[q] = "net" THEN "lost" ELSE rst[q]]
-            /\ UNCHANGED <<msgID, pc, cid, out, st, resp, queueLen, mgrInvoke, tInvoke, dialer, dmode, dialT, sendQ, seen, pkt, rch, lookT, now>>
+            /\ UNCHANGED <<eff, msgID, pc, cid, out, st, resp, queueLen, mgrInvoke, tInvoke, dialer, dmode, dialT, sendQ, seen, pkt, rch, lookT, now>>
 \* connection's recv loop: one full packet -> invokeNum--, go Recv(pkg)
-ClientRecvPkg(q) == /\ q \in DOMAIN rst /\ rst[q] = "net" /\ conn = "open" /\ \A r \in 1..(q - 1) : rst[r] # "net"
+InOrder(q) == \A r \in 1..(q - 1) : rst[r] # "net"      \* one TCP connection delivers in order
+RecvPkgBody(q) == /\ q \in DOMAIN rst /\ rst[q] = "net" /\ conn = "open"
                     /\ rst' = [rst EXCEPT ![q] = "spawned"] /\ tInvoke' = tInvoke - 1
-                    /\ UNCHANGED <<msgID, pc, cid, out, st, resp, queueLen, mgrInvoke, conn, dialer, dmode, dialT, sendQ, wire, seen, pkt, rch, lookT, now>>
+                    /\ UNCHANGED <<eff, msgID, pc, cid, out, st, resp, queueLen, mgrInvoke, conn, dialer, dmode, dialT, sendQ, wire, seen, pkt, rch, lookT, now>>
+ClientRecvPkg(q) == q \in DOMAIN rst /\ InOrder(q) /\ RecvPkgBody(q)
 \* ---------------------------------------------------------------- receiver goroutine of packet q (AdapterProxy.Recv)
 RecvStart(q) == /\ q \in DOMAIN rst /\ rst[q] = "spawned"
                 /\ rst' = [rst EXCEPT ![q] = IF pkt[q].id = GARB THEN "bad" ELSE IF pkt[q].id = 0 THEN "push" ELSE "begun"]
-                /\ UNCHANGED <<msgID, pc, cid, out, st, resp, queueLen, mgrInvoke, tInvoke, conn, dialer, dmode, dialT, sendQ, wire, seen, pkt, rch, lookT, now>>
+                /\ UNCHANGED <<eff, msgID, pc, cid, out, st, resp, queueLen, mgrInvoke, tInvoke, conn, dialer, dmode, dialT, sendQ, wire, seen, pkt, rch, lookT, now>>
 Lookup(q) == /\ q \in DOMAIN rst /\ rst[q] = "begun"
              /\ IF pkt[q].id \in DOMAIN resp
                 THEN rst' = [rst EXCEPT ![q] = "found"] /\ rch' = [rch EXCEPT ![q] = resp[pkt[q].id]] /\ lookT' = [lookT EXCEPT ![q] = now]
-                ELSE rst' = [rst EXCEPT ![q] = "dropped"] /\ UNCHANGED <<rch, lookT>>
-             /\ UNCHANGED <<msgID, pc, cid, out, st, resp, queueLen, mgrInvoke, tInvoke, conn, dialer, dmode, dialT, sendQ, wire, seen, pkt, now>>
+                ELSE rst' = [rst EXCEPT ![q] = "dropped"] /\ UNCHANGED <<eff, rch, lookT>>
+             /\ UNCHANGED <<eff, msgID, pc, cid, out, st, resp, queueLen, mgrInvoke, tInvoke, conn, dialer, dmode, dialT, sendQ, wire, seen, pkt, now>>
 \* rendezvous on the unbuffered reply channel: only with the caller that owns the channel, only while it is in its select
 Deliver(q) == /\ q \in DOMAIN rst /\ rst[q] = "found" /\ pc[rch[q]] = "wait"
               /\ rst' = [rst EXCEPT ![q] = "delivered"] /\ Finish(rch[q], "reply", q) /\ Goto(rch[q], "unreg1")
-              /\ UNCHANGED <<msgID, cid, st, resp, queueLen, mgrInvoke, tInvoke, conn, dialer, dmode, dialT, sendQ, wire, seen, pkt, rch, lookT, now>>
+              /\ UNCHANGED <<eff, msgID, cid, st, resp, queueLen, mgrInvoke, tInvoke, conn, dialer, dmode, dialT, sendQ, wire, seen, pkt, rch, lookT, now>>
 GaveUpDue(q) == ~Timed \/ now >= lookT[q] + ReadTO
 GiveUp(q) == /\ q \in DOMAIN rst /\ rst[q] = "found" /\ GaveUpDue(q)
              /\ rst' = [rst EXCEPT ![q] = "gaveup"]
-             /\ UNCHANGED <<msgID, pc, cid, out, st, resp, queueLen, mgrInvoke, tInvoke, conn, dialer, dmode, dialT, sendQ, wire, seen, pkt, rch, lookT, now>>
+             /\ UNCHANGED <<eff, msgID, pc, cid, out, st, resp, queueLen, mgrInvoke, tInvoke, conn, dialer, dmode, dialT, sendQ, wire, seen, pkt, rch, lookT, now>>
 \* ---------------------------------------------------------------- time: advances only when nothing internal can move
 Urgent == \/ \E c \in Callers : pc[c] \in {"idle", "cas", "add", "pre", "sel", "reg1", "reg2", "unreg1", "unreg2", "post"}
           \/ \E c \in Callers : pc[c] = "send" /\ dialer = 0
-          \/ \E c \in Callers : pc[c] = "wait" /\ now >= st[c] + TO[c]
+          \/ \E c \in Callers : pc[c] = "wait" /\ now >= st[c] + eff[c]
           \/ dialer # 0 /\ (dmode # "blackhole" \/ now >= dialT + DialBound)
           \/ sendQ # {} /\ conn = "open"
           \/ \E q \in DOMAIN rst : rst[q] \in {"spawned", "begun"}
           \/ \E q \in DOMAIN rst : rst[q] = "found" /\ (pc[rch[q]] = "wait" \/ now >= lookT[q] + ReadTO)
 Tick == /\ Timed /\ now < Horizon /\ ~Urgent /\ now' = now + 1
-        /\ UNCHANGED <<msgID, pc, cid, out, st, resp, queueLen, mgrInvoke, tInvoke, conn, dialer, dmode, dialT, sendQ, wire, seen, pkt, rst, rch, lookT>>
+        /\ UNCHANGED <<eff, msgID, pc, cid, out, st, resp, queueLen, mgrInvoke, tInvoke, conn, dialer, dmode, dialT, sendQ, wire, seen, pkt, rst, rch, lookT>>
 
 CallerStep(c) == Start(c) \/ GenCAS(c) \/ GenAdd(c) \/ Pre(c) \/ Sel(c) \/ Reg1(c) \/ Reg2(c) \/ SendOpen(c) \/ DialStart(c)
                  \/ DialDone(c) \/ Timeout(c) \/ Unreg1(c) \/ Unreg2(c) \/ Post(c)
 RecvStep(q) == ClientRecvPkg(q) \/ RecvStart(q) \/ Lookup(q) \/ Deliver(q) \/ GiveUp(q)
-Hurry == {c \in Callers : pc[c] \in Transient}
-Next == IF Hurry # {} THEN \E c \in Hurry : CallerStep(c) ELSE
+HurryC == {c \in Callers : pc[c] \in Transient}
+HurryQ == {q \in DOMAIN rst : rst[q] \in Transient}
+HurryS == IF "sendq" \in Transient /\ conn = "open" THEN sendQ ELSE {}
+Next == IF HurryC # {} THEN \E c \in HurryC : CallerStep(c) ELSE
+        IF HurryQ # {} THEN \E q \in HurryQ : RecvStep(q) ELSE
+        IF HurryS # {} THEN \E m \in HurryS : SenderWrite(m) ELSE
         \/ \E c \in Callers : CallerStep(c)
         \/ \E m \in sendQ : SenderWrite(m)
         \/ \E m \in wire : PeerGet(m)
@@ -192,9 +192,9 @@ TypeOK == /\ msgID \in Ids /\ conn \in {"closed", "open"} /\ dialer \in Callers 
 ReplyMatches == \A c \in Callers : out[c].k = "reply" =>
                    /\ out[c].p \in DOMAIN pkt /\ pkt[out[c].p].id = cid[c] /\ pkt[out[c].p].tag \in {0, c}
 IdNonZero == \A c \in Callers : HasId(c) => cid[c] # 0
-IdsDistinct == \A c, d \in Callers : (c # d /\ Outstanding(c) /\ Outstanding(d)) => cid[c] # cid[d]
+IdsDistinct == LET O == {c \in Callers : Outstanding(c)} IN Cardinality({cid[c] : c \in O}) = Cardinality(O)   \* pairwise distinct
 \* a packet is handed to at most one caller, a caller takes at most one packet
-OnePacketOneCaller == \A c, d \in Callers : (c # d /\ out[c].k = "reply" /\ out[d].k = "reply") => out[c].p # out[d].p
+OnePacketOneCaller == LET R == {c \in Callers : out[c].k = "reply"} IN Cardinality({out[c].p : c \in R}) = Cardinality(R)
 \* ---- C09: accounting (nothing is held by a call that is not in the corresponding section), hence no residue
 Registered(c) == pc[c] \in {"send", "dial", "wait", "unreg1", "unreg2"}
 AcctQueue == queueLen = Cardinality({c \in Callers : pc[c] \in {"reg2", "send", "dial", "wait", "unreg1"}})
@@ -207,7 +207,7 @@ NoResidue == Quiet => (DOMAIN resp = {} /\ queueLen = 0 /\ mgrInvoke = 0)
 \* answered exactly once and nothing else arrives (checked under PolitePeer; see MC_transport_kf.cfg for the rest)
 TransportBack == (Quiet /\ sendQ = {} /\ \A q \in DOMAIN rst : rst[q] \notin {"net"}) => tInvoke = 0
 \* every call is over by its effective deadline plus the connection-establishment bound
-DeadlineInv == Timed => \A c \in Callers : InFlight(c) => now <= st[c] + TO[c] + DialBound
+DeadlineInv == Timed => \A c \in Callers : InFlight(c) => now <= st[c] + eff[c] + DialBound
 \* a step of the receiver of a packet addressed to no call in flight (late, duplicate after delivery, foreign, push, garbage)
 \* changes no call and no counter of a call
 LateReplyHarmless ==
